@@ -1,7 +1,8 @@
 /-
 C07 — block signatures verify only for the exact hash, token, expiry and key.
 Property theorems only (helpers are in Proofs/C07*.lean). Every theorem is for an arbitrary MAC
-`mac : key → message → digest`; HMAC-SHA1 is only used by the executable driver.
+`mac : key → message → digest`; the last section instantiates the theorems that need a 20-byte
+digest with the executable HMAC-SHA1 (`hmacSha1`), for which that hypothesis is proved.
 Time: `nowNs` is the clock (ns since the epoch) read by `VerifySignature`; an expiry of `t` whole
 seconds has passed iff `t·10⁹ < nowNs` (`time.Unix(t,0).Before(now)`), so a signature is still good
 *during* the whole-second instant `t·10⁹` itself and expired from the next nanosecond on.
@@ -9,6 +10,8 @@ seconds has passed iff `t·10⁹ < nowNs` (`time.Unix(t,0).Before(now)`), so a s
 import ArvVerif.Proofs.C07_Perturb
 import ArvVerif.Proofs.C07_Manifest
 import ArvVerif.Proofs.C07_Serve
+import ArvVerif.Proofs.C07_Hmac
+import ArvVerif.Proofs.C07_Ruby
 namespace ArvVerif.C07
 variable (mac : Str → Str → List UInt8)
 
@@ -834,5 +837,113 @@ theorem C07_signed_manifest_locator_verifies {tok key t h : Str} {fs size hs : L
 example : splitOn '+' "0123456789abcdef0123456789abcdef+3+Afoo+Kx".toList =
     ["0123456789abcdef0123456789abcdef".toList, ['3'], ['A', 'f', 'o', 'o'], ['K', 'x']] ∧
     (["3".toList, "Afoo".toList, "Kx".toList].filter notPermHint = [['3']] ++ [['K', 'x']]) := by decide
+
+/-! ### the implementation's MAC: HMAC-SHA1
+
+The theorems above that parse a signature need `∀ k m, (mac k m).length = 20`. For the MAC the
+code uses — HMAC-SHA1, here the executable `hmacSha1` the Lean driver runs and the correspondence
+check compares with Go's `crypto/hmac` on every case — this is a theorem, so the round-trip
+statements hold for it without any MAC hypothesis. -/
+
+/-- HMAC-SHA1 yields 20 bytes for every key and message (any lengths, any bytes). -/
+theorem C07_hmac_sha1_is_20_bytes (key msg : Str) : (hmacSha1 key msg).length = 20 :=
+  hmacSha1_length key msg
+
+/-- The signature text under HMAC-SHA1 is always 40 lowercase hex digits. -/
+theorem C07_hmac_signature_shape (hash tok e l key : Str) :
+    (makePermSignature hmacSha1 hash tok e l key).length = 40 ∧
+      (makePermSignature hmacSha1 hash tok e l key).all isLowerHex = true :=
+  C07_signature_is_lowercase_hex hmacSha1 hmacSha1_length hash tok e l key
+
+/-- `C07_verify_sign` for HMAC-SHA1, no MAC hypothesis left. -/
+theorem C07_hmac_verify_sign {loc hash tok key : Str} {exp ttlNs ttlNs' nowNs : Int} {hs2 : List Str}
+    (hloc : IsUnsignedLocator loc hash) (hk : key ≠ []) (ht : tok ≠ [])
+    (h0 : 0 ≤ exp) (h32 : exp < 2 ^ 32)
+    (hh2 : ∀ f ∈ hs2, isOtherHint f = true) (httl : ttlSeconds ttlNs' = ttlSeconds ttlNs) :
+    verifySignature hmacSha1 (signLocator hmacSha1 loc tok exp ttlNs key ++ hints hs2) tok ttlNs' key nowNs =
+      if exp * 1000000000 < nowNs then .expired else .ok :=
+  C07_verify_sign hmacSha1 hloc hk ht h0 h32 hmacSha1_length hh2 httl
+
+/-- `C07_put_then_get` for HMAC-SHA1: what keepstore's `handlePUT` returns is served by
+`handleGET` to the same token. -/
+theorem C07_hmac_put_then_get (cfg : KSConfig) (hash tok : Str) (size : Nat) (nowNs : Int)
+    (hl : hash.length = 32) (hx : hash.all isLowerHex = true)
+    (hk : cfg.key ≠ []) (ht : tok ≠ [])
+    (hnow : 0 ≤ nowNs) (httl : 1000000000 ≤ cfg.ttlNs)
+    (h32 : (nowNs + cfg.ttlNs) / 1000000000 < 2 ^ 32) :
+    handleGET hmacSha1 cfg (putReply hmacSha1 cfg hash size tok nowNs) tok nowNs = .readVolume hash :=
+  C07_put_then_get hmacSha1 cfg hash tok size nowNs hl hx hk ht hmacSha1_length hnow httl h32
+
+/-- `C07_signed_manifest_locator_verifies` for HMAC-SHA1. -/
+theorem C07_hmac_signed_manifest_locator_verifies {tok key t h : Str} {fs size hs : List Str}
+    {exp ttlNs nowNs : Int}
+    (e : splitOn '+' t = h :: fs) (hl : h.length = 32) (hx : h.all isLowerHex = true)
+    (hkeep : fs.filter notPermHint = size ++ hs)
+    (hsize : size = [] ∨ ∃ d, size = [d] ∧ isSizeField d = true)
+    (hh : ∀ f ∈ hs, isOtherHint f = true)
+    (hk : key ≠ []) (ht : tok ≠ []) (h0 : 0 ≤ exp) (h32 : exp < 2 ^ 32) :
+    verifySignature hmacSha1 (signToken hmacSha1 tok exp ttlNs key t) tok ttlNs key nowNs =
+      if exp * 1000000000 < nowNs then .expired else .ok :=
+  C07_signed_manifest_locator_verifies hmacSha1 e hl hx hkeep hsize hh hk ht h0 h32 hmacSha1_length
+
+/-! ### the API server's verifier (blob.rb `verify_signature!`, transcription `Ref.verifySignature`)
+
+Ruby is not available in the sandbox: the transcription (Model/C07_Ruby.lean, Ruby's `split`,
+`=~`, `to_i(16)` semantics spelled out there) is tied to the source lines but not run. -/
+
+/-- On every string of the shape blob.rb relies on (`RbShape`: non-empty first field, exactly one
+field starting with `A`, of the form `A<sig>@<ts>`; nothing required of the hash or the field
+lengths) with a hex timestamp field, `verify_signature!` recovers hash, signature and timestamp,
+and answers: not base 16 if the timestamp has an uppercase digit; expired if its value is below
+`now` (whole seconds); invalid unless the signature text equals the HMAC hex text of
+`hash@token@timestamp@ttl-hex`; otherwise true. It never raises `NoMethodError` there. -/
+theorem C07_api_server_verify {s hash sig e : Str} (h : RbShape s hash sig e) (ex : e.all isXDigit = true)
+    (tok key : Str) (ttlSecs : Nat) (nowSec : Int) :
+    ∃ t : Nat, hexNat? e 0 = some t ∧
+      Ref.verifySignature mac s tok key ttlSecs nowSec =
+        if e.all isLowerHex = false then .notBase16
+        else if (t : Int) < nowSec then .expired
+        else if sig ≠ Ref.generateSignature mac key hash tok e (natHex ttlSecs) then .invalid
+        else .ok :=
+  rb_verify_of_shape mac h ex tok key ttlSecs nowSec
+
+/-- Every string of Go's `SignedLocatorRe` grammar has that shape, with the same hash, signature
+and expiry groups: the two verifiers parse it identically. -/
+theorem C07_go_grammar_within_api_server_shape {s hash sig e : Str} (h : IsSignedLocator s hash sig e) :
+    RbShape s hash sig e ∧ e.all isXDigit = true :=
+  ⟨rbShape_of_isSignedLocator h, h.choose_spec.choose_spec.choose_spec.2.2.2.2.2.2.2.2.1⟩
+
+/-- Whatever Go's `VerifySignature` accepts (for a TTL of `ttlSecs` whole seconds plus a sub-second
+rest, and an expiry field in lowercase — the only form either signer produces), the API server
+accepts at the same moment (`now` = the clock truncated to whole seconds). The converse fails only
+in two documented ways: blob.rb compares whole seconds, so it still accepts during the second that
+starts at the expiry instant (`C07_expired_within_expiry_second`), and it accepts strings outside
+Go's grammar (`C07_api_server_verify` needs no 32-digit hash, no 40/8-digit fields). -/
+theorem C07_api_server_accepts_what_go_accepts {s tok key : Str} {ttlSecs frac : Nat} {nowNs : Int}
+    (hfrac : frac < 1000000000)
+    (hlow : ∀ hash sig e, IsSignedLocator s hash sig e → e.all isLowerHex = true)
+    (hok : verifySignature mac s tok ((ttlSecs : Int) * 1000000000 + frac) key nowNs = .ok) :
+    Ref.verifySignature mac s tok key ttlSecs (nowNs / 1000000000) = .ok := by
+  obtain ⟨hash, sig, e, t, hs, hv, hnow, hsig⟩ := (C07_verify_iff_mac mac s tok key _ nowNs).mp hok
+  obtain ⟨hshape, hx⟩ := C07_go_grammar_within_api_server_shape hs
+  obtain ⟨t', hv', hrb⟩ := rb_verify_of_shape mac hshape hx tok key ttlSecs (nowNs / 1000000000)
+  have htt : t' = t := by rw [hv] at hv'; exact (Option.some.inj hv').symm
+  subst htt
+  have httl : ttlSeconds ((ttlSecs : Int) * 1000000000 + frac) = (ttlSecs : Int) := by
+    unfold ttlSeconds
+    rw [Int.tdiv_eq_ediv_of_nonneg (by omega)]
+    omega
+  have hi : intHex (ttlSecs : Int) = natHex ttlSecs := by simp [intHex]
+  have hmacs : makePermSignature mac hash tok e (ttlHex ((ttlSecs : Int) * 1000000000 + frac)) key =
+      Ref.generateSignature mac key hash tok e (natHex ttlSecs) := by
+    simp [makePermSignature, sigMessage, Ref.generateSignature, Ref.message, ttlHex, httl, hi,
+      List.append_assoc]
+  have hnot : ¬ ((t' : Int) < nowNs / 1000000000) := by omega
+  rw [hrb, hlow hash sig e hs]
+  simp [hnot, hsig, hmacs]
+
+example : RbShape "ab+3+Asig@ff+Kx".toList ['a', 'b'] "sig".toList ['f', 'f'] :=
+  ⟨[['3']], [['K', 'x']], by decide, by decide, by simp [Free], by simp [Free], by simp [Free],
+    by simp [Free], by simp [Free], by simp [Free], by simp [Free], by decide⟩
 
 end ArvVerif.C07
